@@ -62,7 +62,14 @@ CFGS = {
 SP2_WINDOW = (1e-7, 1e-3)
 CFGS_LEAF = {f"adaptive/sp2@{t:g}": ("adaptive", t, False) for t in (1e-2, 1e-3, 1e-5, 1e-8, 1e-10)}
 CFGS_LEAF.update({f"fixed0.3/sp2@{t:g}": ("fixed0.3", t, False) for t in (1e-3, 1e-10)})
+# the other force evaluators on the restricted and the unrestricted-singlet path, and the SCF run for a CIS/RPA request
+for _u, _un in ((False, "adaptive"), (True, "uhf-adaptive")):
+    for _fm in ("analytical", "semi_numerical"):
+        CFGS_LEAF[f"{_un}/{_fm}"] = ("adaptive", None, _u, {"fmode": _fm})
+CFGS_LEAF["adaptive+cis"] = ("adaptive", None, False, {"excited": "cis"})
+CFGS_LEAF["pulay+rpa"] = ("pulay", None, False, {"excited": "rpa"})
 ALLCFG = dict(CFGS, **CFGS_LEAF)
+LEAF_EPS_AXIS = ("adaptive+cis", "pulay+rpa", "adaptive/analytical", "uhf-adaptive/analytical")
 # unrestricted singlet solved inside a batch with a molecule of another composition (row 0 = the molecule, unpadded)
 MATE = {"H2O": "HF", "NH3": "H2O", "CH4": "NH3", "H2CO": "H2O", "HCN": "HF", "CH3OH": "H2CO"}
 SEQ_EPS = 1e-8
@@ -90,8 +97,14 @@ def geometry(name, k, seed):
 
 
 def _params(cfg, eps):
-    key, s2, uhf = ALLCFG[cfg]
-    return sp.make_params("AM1", "adaptive", eps, sp2=s2, uhf=uhf, scf_converger=copy.deepcopy(SOLVER_OPT[key]))
+    key, s2, uhf = ALLCFG[cfg][:3]
+    more = ALLCFG[cfg][3] if len(ALLCFG[cfg]) > 3 else {}
+    extra = {}
+    if more.get("excited"):
+        # excited states requested alongside: the ground-state part of the answer is what is compared
+        extra["excited_states"] = {"n_states": 2, "method": more["excited"], "tolerance": 1e-4}
+    return sp.make_params("AM1", "adaptive", eps, sp2=s2, uhf=uhf, scf_converger=copy.deepcopy(SOLVER_OPT[key]),
+                          force_mode=more.get("fmode", "autodiff"), **extra)
 
 
 def _to_layout(P, uhf):
@@ -153,7 +166,7 @@ def _emo(e):
 def compare(task, out, ref):
     """-> list of (observable, error, tolerance); also fills ratios"""
     cfg = task["cfg"]
-    key, s2, uhf = ALLCFG[cfg]
+    key, s2, uhf = ALLCFG[cfg][:3]
     a = {"fixed0.3": 0.3}.get(key, 0.0)
     s2_eff = min(max(s2, SP2_WINDOW[0]), SP2_WINDOW[1]) if s2 else 0.0
     t = max(task["eps"], s2_eff) / (1.0 - a)
@@ -180,7 +193,7 @@ def compare(task, out, ref):
 
 
 def _desc(task, kind, **more):
-    key, s2, uhf = ALLCFG[task["cfg"]]
+    key, s2, uhf = ALLCFG[task["cfg"]][:3]
     d = {
         "kind": kind, "mol": task["mol"], "g": task["g"], "cfg": task["cfg"], "solver": key, "sp2": s2 is not None, "uhf": uhf,
         "eps": task["eps"], "start": task["start"], "depth": len(task["prov"]), "prev_cfg": task["prov"][-1] if task["prov"] else "none",
@@ -307,6 +320,10 @@ def run(chk, tier, seed):
         for g in (0, depth):
             for c in CFGS_LEAF:
                 tasks.append(dict(mol=m, g=g, cfg=c, eps=SEQ_EPS, seed=seed, prov=[], start="cold"))
+        for c in LEAF_EPS_AXIS:
+            for e in EPS_AXIS:
+                if e != SEQ_EPS:
+                    tasks.append(dict(mol=m, g=0, cfg=c, eps=e, seed=seed, prov=[], start="cold"))
             for c in ("uhf-adaptive", "adaptive", "pulay/sp2"):
                 tasks.append(dict(mol=m, g=g, cfg=c, eps=SEQ_EPS, seed=seed, prov=[], start="cold", mate=MATE[m]))
     planned += len(tasks)
